@@ -962,7 +962,8 @@ impl DesignRoot {
             }
         }
 
-        self.reset_affected(get_all_affected(&users_of, affected));
+        let all_affected = get_all_affected(&users_of, affected);
+        self.reset_affected(all_affected.clone());
         drop(users_of);
         drop(users_of_library_all);
         drop(missing_unit);
@@ -970,6 +971,12 @@ impl DesignRoot {
         let mut users_of = self.users_of.write();
         let mut users_of_library_all = self.users_of_library_all.write();
         let mut missing_unit = self.missing_unit.write();
+
+        // Forget what the units that are analyzed again made use of, their analysis registers it anew.
+        // A dependency that is gone must not be seen as part of a circular dependency later on.
+        for users in users_of.values_mut() {
+            users.retain(|user| !all_affected.contains(user));
+        }
 
         // Clean-up after removed units
         for removed_unit in removed.iter() {
